@@ -56,7 +56,7 @@ def parse_line(ln):
     return d
 
 
-def run_shard(exe, flavour, seed, n, shard, nshards, prefix, exact, timeout):
+def run_shard(exe, flavour, seed, n, shard, nshards, prefix, exact, timeout, isa=None):
     """Run one shard; a kernel that kills the process (signal, fatal sanitizer report) is recorded
     and the shard is resumed behind it.  Returns [(RunResult, log prefix)]."""
     out = []
@@ -67,6 +67,8 @@ def run_shard(exe, flavour, seed, n, shard, nshards, prefix, exact, timeout):
             cmd.append("--exact")
         if after:
             cmd += ["--after", after]
+        if isa:
+            cmd += ["--isa", isa]
         pfx = "%s.%d" % (prefix, attempt)
         env = sanlog.env_for(flavour, pfx) if flavour == "asan" else None
         res = core.run(cmd, timeout=timeout, env=env)
@@ -208,11 +210,13 @@ def run(chk, tier, replay=None):
     quick = tier == "quick"
     scale = getattr(chk, "scale", 1)
     n_plain = max(10, int((200 if quick else 20000) * scale))
-    n_asan = max(5, int((30 if quick else 1500) * scale))
+    n_asan = max(5, int((30 if quick else 600) * scale))
     inc, summary = generate()
     flavours = [("plain", "plain", n_plain, False), ("asan", "asan-exact", n_asan, True)]
     if not quick and build.has_avx512():
         flavours.append(("avx512", "avx512", n_plain, False))
+    elif not quick:
+        chk.extra["avx512"] = "host CPU without AVX-512: *_avx512 variants not compared"
     state = {"kernels": {}, "uncovered": {}, "seen": set(), "asan_marks": [], "errors": [], "not_on_host": set(),
              "seed": chk.seed, "exact": {}}
     workers = max(2, min(6 if quick else 8, core.default_workers()))
@@ -228,7 +232,9 @@ def run(chk, tier, replay=None):
         flavour, tag, exe, n, exact, s, nshards = job
         prefix = os.path.join(chk.dir, "%s-%03d" % (tag, s))
         # generous watchdog: only marks "no progress"
-        return job, run_shard(exe, flavour, chk.seed, n, s, nshards, prefix, exact, timeout=3600 if quick else 6 * 3600)
+        # the avx512 build is only there for the AVX-512 variants (everything else is covered by `plain`)
+        return job, run_shard(exe, flavour, chk.seed, n, s, nshards, prefix, exact, timeout=3600 if quick else 6 * 3600,
+                              isa="avx512" if flavour == "avx512" else None)
 
     for job, runs in core.pmap(one, jobs, workers=workers):
         for res, prefix in runs:
